@@ -401,48 +401,97 @@ func ruleSrt3(c *Ctx) {
 // R-LIM-1 ---------------------------------------------------------------------
 
 // stageOrder checks that no call of a later stage can be followed by a call of
-// an earlier stage inside fn.
+// an earlier stage inside fn. A call of a private helper of fn (a function called
+// from nowhere else, two levels) stands for the stages that helper calls; the
+// order inside the helper is checked in the same way.
 func stageOrder(c *Ctx, fn *ssa.Function, stages [][]string) {
+	private := privateHelpersOf(c.P, fn, 2)
 	type site struct {
-		stage int
-		in    ssa.CallInstruction
+		stages map[int]bool
+		in     ssa.CallInstruction
+		helper *ssa.Function
 	}
-	var sites []site
-	found := map[int]bool{}
-	for _, call := range core.Calls(fn) {
-		name := c.P.CalleeName(call)
+	stageOf := func(name string) int {
 		for i, st := range stages {
 			for _, n := range st {
 				if name == n {
-					sites = append(sites, site{i, call})
-					found[i] = true
+					return i
+				}
+			}
+		}
+		return -1
+	}
+	// the stages a helper calls (transitively through private helpers)
+	var contains func(f *ssa.Function, seen map[*ssa.Function]bool) map[int]bool
+	contains = func(f *ssa.Function, seen map[*ssa.Function]bool) map[int]bool {
+		out := map[int]bool{}
+		if seen[f] {
+			return out
+		}
+		seen[f] = true
+		for _, g := range append([]*ssa.Function{f}, f.AnonFuncs...) {
+			for _, call := range core.Calls(g) {
+				if i := stageOf(c.P.CalleeName(call)); i >= 0 {
+					out[i] = true
+				} else if h := core.StaticCallee(call); h != nil && private[h] {
+					for i := range contains(h, seen) {
+						out[i] = true
+					}
+				}
+			}
+		}
+		return out
+	}
+	found := map[int]bool{}
+	bad := map[int]string{}
+	var check func(f *ssa.Function, seen map[*ssa.Function]bool)
+	check = func(f *ssa.Function, seen map[*ssa.Function]bool) {
+		if seen[f] {
+			return
+		}
+		seen[f] = true
+		var sites []site
+		for _, call := range core.Calls(f) {
+			if i := stageOf(c.P.CalleeName(call)); i >= 0 {
+				sites = append(sites, site{map[int]bool{i: true}, call, nil})
+				found[i] = true
+			} else if h := core.StaticCallee(call); h != nil && private[h] {
+				st := contains(h, map[*ssa.Function]bool{})
+				if len(st) > 0 {
+					sites = append(sites, site{st, call, h})
+					for i := range st {
+						found[i] = true
+					}
+					check(h, seen)
+				}
+			}
+		}
+		for i := 0; i+1 < len(stages); i++ {
+			for _, later := range sites {
+				if !later.stages[i+1] {
+					continue
+				}
+				for _, earlier := range sites {
+					if !earlier.stages[i] || earlier.in == later.in {
+						continue
+					}
+					if core.Reachable(later.in, earlier.in, nil) {
+						bad[i] = fmt.Sprintf("%s at %s can run after %s at %s", short2(stages[i][0]), c.Pos(earlier.in), short2(stages[i+1][0]), c.Pos(later.in))
+					}
 				}
 			}
 		}
 	}
+	check(fn, map[*ssa.Function]bool{})
 	for i, st := range stages {
 		if !found[i] {
-			c.Unknown(c.KeyAt(fn, "stage "+st[0]), c.FnPos(fn), "cannot-analyse: stage call "+strings.Join(st, "|")+" not found in "+c.P.Name(fn))
+			c.Unknown(c.KeyAt(fn, "stage "+st[0]), c.FnPos(fn), "cannot-analyse: stage call "+strings.Join(st, "|")+" not found in "+c.P.Name(fn)+" or its private helpers")
 		}
 	}
 	for i := 0; i+1 < len(stages); i++ {
 		key := c.KeyAt(fn, short2(stages[i][0])+" ≺ "+short2(stages[i+1][0]))
-		bad := ""
-		for _, later := range sites {
-			if later.stage != i+1 {
-				continue
-			}
-			for _, earlier := range sites {
-				if earlier.stage != i {
-					continue
-				}
-				if core.Reachable(later.in, earlier.in, nil) {
-					bad = fmt.Sprintf("%s at %s can run after %s at %s", short2(stages[i][0]), c.Pos(earlier.in), short2(stages[i+1][0]), c.Pos(later.in))
-				}
-			}
-		}
-		if bad != "" {
-			c.Bad(key, c.FnPos(fn), bad)
+		if bad[i] != "" {
+			c.Bad(key, c.FnPos(fn), bad[i])
 		} else {
 			c.Ok(key, c.FnPos(fn), "no path from the later stage back to the earlier one")
 		}
@@ -485,12 +534,18 @@ func ruleLim2(c *Ctx) {
 		return
 	}
 	// find the float→int conversion fed by math.Ceil and collect the leaves of
-	// its argument expression
+	// its argument expression (in Limit itself or in a private helper of it)
 	var found bool
-	for _, call := range core.Calls(fn) {
-		if c.P.CalleeName(call) != "math.Ceil" {
-			continue
-		}
+	var ceilCalls []ssa.CallInstruction
+	hosts := []*ssa.Function{fn}
+	for h := range privateHelpersOf(c.P, fn, 2) {
+		hosts = append(hosts, h)
+	}
+	sort.Slice(hosts[1:], func(i, j int) bool { return c.P.Name(hosts[1+i]) < c.P.Name(hosts[1+j]) })
+	for _, h := range hosts {
+		ceilCalls = append(ceilCalls, c.P.CallsNamed(h, "math.Ceil")...)
+	}
+	for _, call := range ceilCalls {
 		found = true
 		hasLen, hasOffset, hasPct := false, false, false
 		seen := map[ssa.Value]bool{}
